@@ -174,6 +174,9 @@ func compareRun(src string) (*fw.Fail, cmpInfo) {
 		}
 	}
 	r := impl.Interpret(src)
+	// what a call returned belongs to the caller: once it has been compared, every map in it is written to, so
+	// that a map the library still shares (with another block, with a later call) shows up as a foreign key there
+	defer impl.Poison(r.Blocks, r.Binding)
 	toks, lexfail := ref.Lex(src)
 	diags, warns, malformed := splitLog(src, r.Log)
 	if len(malformed) > 0 {
